@@ -32,6 +32,7 @@ type mtype struct {
 	N      int      `json:"n"`
 	Key    *mtype   `json:"key"`
 	F      []mfield `json:"f"`
+	FB     []*mtype `json:"fb"` // struct: element type of the embedded fallback map, if any
 
 	rt reflect.Type
 }
@@ -137,6 +138,9 @@ func (t *mtype) goType() reflect.Type {
 			}
 			fs[i] = reflect.StructField{Name: "F" + strconv.Itoa(i), Type: f.T.goType(),
 				Tag: reflect.StructTag(`json:` + strconv.Quote(strings.Join(parts, ",")))}
+		}
+		if len(t.FB) == 1 {
+			fs = append(fs, reflect.StructField{Name: "Xfb", Type: reflect.MapOf(reflect.TypeOf(""), t.FB[0].goType()), Tag: `json:",embed"`})
 		}
 		rt = reflect.StructOf(fs)
 	default:
@@ -278,6 +282,9 @@ func (t *mtype) set(v reflect.Value, g any) {
 	case "struct":
 		for i, e := range m["f"].([]any) {
 			t.F[i].T.set(v.Field(i), e)
+		}
+		if len(t.FB) == 1 {
+			(&mtype{K: "map", Key: &mtype{K: "str"}, E: t.FB[0]}).set(v.Field(len(t.F)), m["fb"])
 		}
 	}
 }
@@ -433,7 +440,11 @@ func (t *mtype) render(v reflect.Value) any {
 		for i := range t.F {
 			fs = append(fs, t.F[i].T.render(v.Field(i)))
 		}
-		return map[string]any{"f": fs}
+		fb := any(map[string]any{"nil": true, "m": []any{}})
+		if len(t.FB) == 1 {
+			fb = (&mtype{K: "map", Key: &mtype{K: "str"}, E: t.FB[0]}).render(v.Field(len(t.F)))
+		}
+		return map[string]any{"f": fs, "fb": fb}
 	}
 	return "unrenderable " + t.K
 }
@@ -709,7 +720,11 @@ func (t *mtype) data() map[string]any {
 		for _, f := range t.F {
 			fs = append(fs, map[string]any{"name": f.Name, "t": f.T.data(), "omitzero": f.OmitZero, "omitempty": f.OmitEmpty, "str": f.Str, "casing": f.Casing, "fmt": f.Fmt})
 		}
-		return map[string]any{"k": "struct", "f": fs}
+		fb := []any{}
+		for _, e := range t.FB {
+			fb = append(fb, e.data())
+		}
+		return map[string]any{"k": "struct", "f": fs, "fb": fb}
 	}
 	return map[string]any{"k": t.K}
 }
